@@ -35,10 +35,10 @@ PROPS["C04"] = {
     "assumptions": SCHED_ASSUME + ["|live| of the abstract Runner equals the real `running` counter (both change by one in start/wait); BuildStates::new's built-in pools and parse::read_pool's depth are not yet under contract"],
 }
 PROPS["C05"] = {
-    "units": ["sched"],
-    "probes": {"sched": ["work::Work::run", "work::Work::recheck_ready"]},
+    "units": ["sched", "run"],
+    "probes": {"sched": ["work::Work::run", "work::Work::recheck_ready"], "run": ["run::build", "run::run_impl"]},
     "level": "proof",
-    "assumptions": SCHED_ASSUME + ["decoding of the wait status into Termination (process_posix.rs, FFI) is not verified", "run::build / run_impl / main exit-code mapping is not yet under contract (unit run)",
+    "assumptions": SCHED_ASSUME + ["decoding of the wait status into Termination (process_posix.rs, FFI) is not verified", "unit run: build returns Ok(None) only after a Work::run that returned false, Ok(Some) only directly after one that returned true; run_impl maps None -> 1 (silently), Some -> 0 after the summary; main.rs (Err -> 1) is outside any contract",
                     "liveness clause ('every wanted step not downstream of a failure is still brought up to date') is not decided"],
 }
 PROPS["C06"] = {
@@ -50,18 +50,18 @@ PROPS["C06"] = {
 }
 
 PROPS["C18"] = {
-    "units": ["sched"],
-    "probes": {"sched": ["work::Work::want_file", "work::BuildStates::want_build"]},
+    "units": ["sched", "run"],
+    "probes": {"sched": ["work::Work::want_file", "work::BuildStates::want_build"], "run": ["run::build"]},
     "level": "proof",
     "assumptions": SCHED_ASSUME + ["target selection (command-line names, else `default`, else every file; unknown name => error before anything runs) lives in run::build and is not under contract yet (unit run)",
         "'no step outside the closure is ever run' is decided through C01 (a command starts only from state Queued, reached only from Ready/Want, reached only inside want_build); the converse 'only reachable builds are wanted' is not stated as a clause",
         "-f / -C / builddir are process-level configuration: not decided"],
 }
 PROPS["C19"] = {
-    "units": ["sched", "dirty"],
-    "probes": {"sched": ["work::BuildStates::set", "work::Work::run"], "dirty": ["work::Work::record_finished"]},
+    "units": ["sched", "dirty", "run"],
+    "probes": {"sched": ["work::BuildStates::set", "work::Work::run"], "dirty": ["work::Work::record_finished"], "run": ["run::run_impl"]},
     "level": "proof",
-    "assumptions": SCHED_ASSUME + ["`ran N tasks` / `no work to do` (run::run_impl) and that tasks_run counts exactly the successful commands are not under contract yet (units run / dirty)",
+    "assumptions": SCHED_ASSUME + ["unit run: run_impl prints `no work to do` exactly for Ok(Some(0)), `ran n tasks` with build()'s n otherwise, and build()'s n is the sum of the tasks_run increments of all Work::run calls (protocol stubs); that tasks_run counts exactly the successful commands inside Work::run is an in-loop fact of unit sched only as far as `record_finished => tasks_run += 1` shares the Success branch",
         "the progress implementations behind &dyn Progress only read the counts they are handed"],
 }
 SCAN_ASSUME = [
@@ -127,8 +127,8 @@ PROPS["C02"] = {
         "phony steps are always 'clean' (Ok(false)) by the code's rule; the property's stated assumption excludes phony aliases as dirtying inputs (F8)"],
 }
 PROPS["C03"] = {
-    "units": ["dirty"],
-    "probes": {"dirty": ["work::Work::check_build_dirty", "hash::build_manifest", "hash::hash_build"]},
+    "units": ["dirty", "run"],
+    "probes": {"dirty": ["work::Work::check_build_dirty", "hash::build_manifest", "hash::hash_build"], "run": ["run::run_impl"]},
     "level": "proof",
     "assumptions": DIRTY_ASSUME + ["`no work to do` / summary line (run.rs) and `-t restat` adopt mode wiring (Work::run's adopt branch records instead of running: verified only as far as record_finished's contract) are not under contract in this unit",
         "'an upstream re-run that leaves its outputs' timestamps unchanged causes no re-runs' follows from the manifest being a function of (names, mtimes, cmdline, rspfile) only -- proved -- plus the trusted stat"],
@@ -154,11 +154,29 @@ PROPS["C20"] = {
     ],
 }
 
+RUN_ASSUME = [
+    "ghost protocol (run.pre.rs): load::read, Work::new, Work::{lookup,want_file,want_every_file,run} and the two result constructors of run::build are renamed (R9) to trusted stubs carrying a ghost protocol state; the protocol IS the specification (written from the statements of C17/C18/C05/C19) and the bodies of the real callees are elided here -- their own contracts are units sched/dirty/db",
+    "assumed in the stubs: Work::new starts with tasks_run == 0; Work::run only increases tasks_run, by at most 2^32-1; a lookup is a function of the name within one graph generation; the manifest keeps its FileId across generations because load::read interns it first (load::read's body is not under contract: seeded change C17-m2 is NOT detected)",
+    "R5: trace::scope(name, || f()) is replaced by f(); progress objects, terminal::use_fancy and parse_args are stubs",
+    "main.rs (Err => `n2: error:` + exit 1) is 9 lines outside any contract",
+]
+PROPS["C17"] = {
+    "units": ["run"],
+    "probes": {"run": ["run::build"]},
+    "level": "proof",
+    "assumptions": RUN_ASSUME + ["'its generator does not run when the manifest is up to date' and 'results settled during that check are reused consistently' are decided by the dirty check (C03) and by want_file tolerating Done steps (unit sched: mono) -- here only: no reload and no second Work when phase 1 ran nothing"],
+}
+
 NOT_APPLICABLE = {
     "C16": "OS-level effects (posix_spawn file actions, pipes, /bin/sh, waitpid, cross-thread output order) sit behind unsafe FFI and threads; no contract on n2's own code can express them (DESIGN.md §8)",
 }
 
 LEVEL_TEXT = {
+    "C17": {
+        "text": "Unbounded proof (Verus) on the real text of run::build against a ghost protocol threaded through its calls (typestate preconditions on trusted stubs of load::read / Work::new / lookup / want_file / want_every_file / run): the manifest name is looked up first and, if the graph knows it, wanted and run before any other want; a second load::read happens only directly after that run returned true having executed commands, reads the same file, and is followed by a fresh Work; after any command ran, the old Work is never looked up, wanted or run again (targets, graph and dirtiness come from the new text only); ids used in want_file were resolved in the current generation (the manifest's own id excepted); after a run that returned false nothing is loaded, wanted or run and the result is Ok(None). Every path through build for every outcome of every call.",
+        "note": "The protocol stubs are the trusted specification; load::read's body (that the manifest is interned first, C17-m2) and main.rs are not under contract.",
+        "design_ref": "DESIGN.md §6 C17",
+    },
     "C20": {
         "text": "Unbounded proof (Verus) on the real text of progress_fancy.rs task_message, truncate and progress_bar, over a trusted byte-level model of str/String: for every message, elapsed time and width >= 10, task_message terminates without panicking (every truncate/slice is at a character boundary, no subtraction underflows) and returns at most max_cols bytes, and a short message without time note is returned unchanged; truncate returns the longest prefix of at most max bytes ending on a character boundary (loop terminates because offset 0 is a boundary); progress_bar returns exactly bar_size bytes for every count vector whose total * (bar_size+1) fits in usize (nonlinear lemma: sum <= total => sum*b/total <= b, == b when sum == total).",
         "note": "Genuine defect D5 (non-boundary truncate panic poisoning the progress mutex; underflow) found by the truncate precondition and fixed in /repo (dc1a548). The str/String wrappers are trusted; print_progress and the thread are not under contract.",
@@ -196,7 +214,7 @@ LEVEL_TEXT = {
     },
     "C18": {
         "text": "Unbounded proof (Verus): Work::want_file(target) ensures closed_u && closed_v: every wanted build has the producer of each of its explicit, implicit and order-only inputs wanted (an invariant of every moment) and of each validation input wanted (re-established on return, through the re-entrant validation recursion); the target's own producer is wanted; builds already wanted are untouched (mono).",
-        "note": "Only the closure half that lives in work.rs is decided; target selection in run::build and -f/-C/builddir are not. Trusted: as C01.",
+        "note": "Target selection (unit run, ghost protocol on run::build): Ok(Some(n)) is returned only if every command-line name was resolved in the latest generation and wanted (or is the manifest, already brought up to date), else every default target was wanted, else want_every_file was called; a name unknown to the (reloaded) manifest and not in adopt mode forbids any later run. -f/-C/builddir are not decided. Trusted: as C01 + the protocol stubs.",
         "design_ref": "DESIGN.md §6 C18",
     },
     "C19": {
